@@ -69,6 +69,9 @@ def r3_validator(ctx, R):
         else:
             ctx.ok("C19.R3", "site " + key, detail=sorted(s.how)[:2], where=F.loc(s.span))
     PATH = ("deref", ("param", 1))
+    if not any(o.kind == "backedge" for o in outs) and any(
+            e["k"] == "call" and (e["callee"].get("path") or "").endswith("Iterator::any") for o in outs for e in o.events):
+        return r3_validator_iter(ctx, R, outs, PATH)
     kinds = {"nul": 0, "abs": 0, "dotdot": 0, "ok": 0, "loop": 0}
     for o in outs:
         if o.kind not in ("return", "backedge"):
@@ -219,6 +222,92 @@ def _only_from(ctx, fn, root):
             return False
         work.extend(cs)
     return True
+
+
+def r3_validator_iter(ctx, R, outs, PATH):
+    """the same decision table for a validator written with iterator adaptors: NUL test over the whole path, leading-'/' test,
+    and `path.split('/').any(|seg| seg == "..")` - the split predicate and the segment predicate are decided by evaluating the
+    closures' MIR (true-set of the delimiter test; truth table of the segment test on sample segments)"""
+    from .common import pred_true_set
+    from .. import models as MM
+    kinds = {"nul": 0, "abs": 0, "dotdot": 0, "ok": 0}
+    samples = ["..", ".", "...", "", "a", "..a", "a..", "./", ".\0", "x."]
+    for o in outs:
+        if o.kind != "return":
+            if o.kind not in ("unreachable", "infeasible"):
+                ctx.violation("C19.R3", "C19.R3|path|" + o.kind, "a validator path ends in %s" % o.kind)
+            continue
+        nul = absf = dd = None
+        for k, t, v in o.cons.log:
+            if k == "variant" and isinstance(t, tuple) and t[0] == "found" and t[2] == const(0) and t[1] == PATH:
+                nul = int(v == "Some")
+            if k == "eq" and isinstance(t, tuple) and t[0] == "contains" and t[1] == PATH and t[2] == const(0):
+                nul = v
+            if k == "eq" and isinstance(t, tuple) and t[0] == "eq" and "'first'" in repr(t) and "('const', 47)" in repr(t):
+                absf = v
+            if k == "eq" and isinstance(t, tuple) and t[0] == "call" and t[1].endswith("starts_with") and ("'/'" in repr(t)):
+                absf = v
+            if k in ("eq", "notin") and isinstance(t, tuple) and t[0] == "proj" and t[1] == PATH and isinstance(t[2], tuple) and t[2][:3] == ("cidx", 0, False):
+                absf = int(v == 47) if k == "eq" else (0 if 47 in v else absf)
+            if k == "eq" and isinstance(t, tuple) and t[0] == "binop" and t[1] in ("Ge", "Lt", "Eq", "Ne") and "len" in repr(t[2])[:20] and absf is None:
+                # an empty path cannot start with '/': the length test of the slice pattern failing means "not absolute"
+                if (t[1] == "Ge" and t[3] == const(1) and v == 0) or (t[1] == "Eq" and t[3] == const(0) and v == 1):
+                    absf = 0
+        anys = [e for e in o.events if e["k"] == "call" and (e["callee"].get("path") or "").endswith("Iterator::any")]
+        bad = []
+        for e in anys:
+            src = e["snap"][0] if e["args"][0][0] == "ref" else e["args"][0]
+            while isinstance(src, tuple) and src and src[0] in ("&", "refconst", "slice_of"):
+                src = src[1]
+            if not (isinstance(src, tuple) and src[0] == "split" and src[1] == PATH):
+                bad.append("the segments examined are not `split` of the whole path (%s)" % short(src, 60))
+            else:
+                delim = pred_true_set(ctx, src[2])
+                if delim != {47}:
+                    bad.append("the path is split at %s, not at '/'" % (sorted(delim) if delim is not None else "an unrecognised predicate"))
+            # the segment predicate: true exactly on ".."
+            body = MM.closure_body(e["args"][1])
+            tab = {}
+            if body and body in ctx.facts.bodies:
+                nref = len(ctx.facts.bodies[body]["locals"][2]["s"]) - len(ctx.facts.bodies[body]["locals"][2]["s"].lstrip("&"))
+                pxx = P.PX(ctx.facts, models=MM.install(None), inline=lambda c, d: True)
+                for s_ in samples:
+                    a = ("bytes", s_)
+                    for _ in range(nref):
+                        a = ("refconst", a)
+                    try:
+                        vals = {x.value for x in pxx.run(body, args=[e["args"][1], a]) if x.kind == "return"}
+                    except Exception:
+                        vals = set()
+                    tab[s_] = next(iter(vals))[1] if len(vals) == 1 and is_const(next(iter(vals))) else None
+            if any(tab.get(s_) != int(s_ == "..") for s_ in samples):
+                bad.append("the segment test is not `segment == \"..\"` (on samples: %s)" % {k_: v_ for k_, v_ in tab.items() if v_ != int(k_ == "..")})
+            r = e.get("result")
+            if r in o.cons.known:
+                dd = o.cons.known[r]
+        if bad:
+            ctx.violation("C19.R3", "C19.R3|iter|%s" % bad[0][:40], "validator: " + "; ".join(bad), where=_w(o))
+            continue
+        is_err = is_agg(o.value) and o.value[3] == "Err"
+        reason = "nul" if nul == 1 else ("abs" if absf == 1 else ("dotdot" if dd == 1 else None))
+        if is_err:
+            if reason is None:
+                ctx.violation("C19.R3", "C19.R3|extra-rejection", "the validator rejects a path for a reason other than NUL / leading '/' / a `..` segment", where=_w(o))
+            else:
+                kinds[reason] += 1
+                ctx.ok("C19.R3", "Err row: %s" % reason)
+        else:
+            if nul != 0 or absf != 0 or dd != 0:
+                ctx.violation("C19.R3", "C19.R3|accepts-unchecked", "the validator accepts a path without having established: no NUL (%s), not absolute (%s), no `..` segment (%s)" % (nul, absf, dd), where=_w(o))
+            else:
+                kinds["ok"] += 1
+                ctx.ok("C19.R3", "Ok row: no NUL, not absolute, no segment equals `..`")
+    for k in ("nul", "abs", "dotdot", "ok"):
+        if kinds[k] == 0:
+            ctx.violation("C19.R3", "C19.R3|missing|" + k, "the validator has no %s row" % k)
+    ctx.floor("C19.R3", sum(1 for k in kinds if kinds[k]), 4, what="row kinds of the validator (NUL, absolute, `..`, Ok)")
+    ctx.assume("slice::split(pred) yields every maximal run between delimiters, including empty leading / trailing / doubled-delimiter runs "
+               "(std documentation); Iterator::any(f) is true iff f is true of some yielded item")
 
 
 def _w(o):
